@@ -25,8 +25,10 @@ def comment_op(draw, idx):
     style = draw(st.sampled_from(COMMENT_STYLES))
     n = draw(st.integers(2, 4)) if style == "multi" else 1
     roles = [style] if style != "multi" else ["multi_first"] + ["multi_mid"] * (n - 2) + ["multi_last"]
-    return {"style": style, "at": draw(st.integers(0, 400)), "text": [draw(c08.comment_text(idx, j, r)) for j, r in enumerate(roles)],
-            "close_own_line": draw(st.booleans()), "flush": draw(st.booleans())}
+    text = [draw(c08.comment_text(idx, j, r)) for j, r in enumerate(roles)]
+    if style in ("t_dash", "t_dash_nb") and draw(st.integers(0, 4)) == 0:
+        text = [""]  # a bare '--' at the end of a line: a comment whose text is empty
+    return {"style": style, "at": draw(st.integers(0, 400)), "text": text, "close_own_line": draw(st.booleans()), "flush": draw(st.booleans())}
 
 
 @st.composite
@@ -37,8 +39,9 @@ def gen_case(draw, max_blocks):
     if draw(st.integers(0, 11)) == 0:
         # an ALTER TABLE / CREATE INDEX whose table the script does not define: both views must agree on it too (today: both raise)
         blocks = blocks + [{"k": "raw", "c": {"family": "orphan", "text": draw(st.sampled_from(ORPHANS))}}]
+    # eof: the last line of the script has no line end (file without a trailing newline)
     return {"src": "gen", "blocks": blocks, "layout": draw(gen.layout(max_len=40)), "mode": draw(st.sampled_from(universe.MODES)),
-            "norm": draw(st.booleans()), "ops": ops}
+            "norm": draw(st.booleans()), "ops": ops, "eof": draw(st.integers(0, 3)) == 0}
 
 
 @st.composite
@@ -56,7 +59,8 @@ def marker_kind(e):
 class C13(Prop):
     id = "C13"
     rule = ("case = generated script of 1..N blocks mixing every entity kind (tables of all flavours, DROP TABLE, LIKE, types, "
-            "sequences, domains, schemas, databases, tablespaces, SET properties) in random order, with 0..3 inserted comments, in a "
+            "sequences, domains, schemas, databases, tablespaces, SET properties) in random order, with 0..3 inserted comments (some with "
+            "empty text: a bare '--'), with or without a line end after the last statement, in a "
             "drawn output mode (15) and normalize_names setting; or a regression-corpus script; relation: grouped[b] == in-order "
             "sub-list of the flat entities of kind b (kind from the generating model, cross-checked with marker keys), six "
             "standard buckets always present, tablespaces / databases iff present, comments == concatenated comment texts, "
@@ -79,11 +83,11 @@ class C13(Prop):
         if case["src"] == "corpus":
             return universe.corpus()[case["item"]]["ddl"]
         base = universe.render_blocks(case["blocks"], case["layout"])
-        if not case["ops"]:
-            return base
-        nl = "\r\n" if "\r\n" in base else "\n"
-        lines, _, _ = c08.apply_ops(base.split(nl), case["ops"])
-        return nl.join(lines)
+        if case["ops"]:
+            nl = "\r\n" if "\r\n" in base else "\n"
+            lines, _, _ = c08.apply_ops(base.split(nl), case["ops"])
+            base = nl.join(lines)
+        return base.rstrip("\r\n") if case.get("eof") else base
 
     def describe(self, case):
         return {"ddl": self.text(case), "mode": case["mode"], "normalize_names": case["norm"], "source": case["src"]}
@@ -146,6 +150,10 @@ class C13(Prop):
                 out.label("kind:" + k)
             if comments:
                 out.label("with_comments")
+            if "" in comments:
+                out.label("empty_comment_text")
+            if case.get("eof"):
+                out.label("no_final_newline")
             for b in STANDARD:
                 if b not in grouped:
                     out.fail("standard-bucket-missing:" + b, "bucket %r absent; grouped keys %r; %r" % (b, sorted(grouped), ddl))
